@@ -64,6 +64,10 @@ func interpMain(seed uint64, n int, outDir, gen string) error {
 		}
 	case "c05":
 		product = c05Product(rnd.Fork("c05"), n)
+	case "c10":
+		for _, p := range c10Sources(seed, n) {
+			product = append(product, p.Src)
+		}
 	}
 	if gen == "c02" {
 		// every program x every cancellation instant 0..kmax
